@@ -113,6 +113,7 @@ pub fn merge_stats(a: &mut RunStats, b: &RunStats) {
     a.restart_after_exit += b.restart_after_exit;
     a.forced_start += b.forced_start;
     a.clock_jumps += b.clock_jumps;
+    a.slow_teardowns += b.slow_teardowns;
     a.private_mount_scenarios += b.private_mount_scenarios;
     for (k, v) in &b.fd_limit_scenarios {
         *a.fd_limit_scenarios.entry(k.clone()).or_insert(0) += v;
